@@ -10,6 +10,7 @@ PROP = {
         {"name": "recv_rearm", "quick": 600000, "thorough": 8000000, "maxlen": 700},
         {"name": "recv_large", "quick": 60000, "thorough": 800000, "maxlen": 3500},
     ],
+    "uchar": ["recv_cfg", "recv_legacy"],
     "fuzz": [{"name": "recv_cfg", "secs": 60, "maxlen": 700}, {"name": "recv_legacy", "secs": 30, "maxlen": 700}],
 }
 
